@@ -7,6 +7,9 @@ def run(d):
     lines=r.stdout.strip().splitlines()
     return d,lines
 dirs=sorted(glob.glob('/verif/seeded/*/'))
+if len(sys.argv)>1:
+    import re
+    dirs=[d for d in dirs if any(re.fullmatch(a,os.path.basename(d.rstrip('/'))) for a in sys.argv[1:])]  # only the named changes (regular expressions)
 with ThreadPoolExecutor(int(os.environ.get('JOBS','3'))) as ex:
     for d,lines in ex.map(run,dirs):
         m=json.load(open(d+'meta.json'))
